@@ -52,6 +52,12 @@ func main() {
 	for k, v := range sym.VfsRedirects() {
 		eng.Redirects[k] = v
 	}
+	if *pkg == "rsyncd" {
+		const r = "github.com/gokrazy/rsync/rsyncd."
+		eng.Redirects["net.SplitHostPort"] = r + "VSplitHostPort"
+		eng.Redirects["net.ParseIP"] = r + "VParseIP"
+		eng.Redirects["net.ParseCIDR"] = r + "VParseCIDR"
+	}
 	eng.MaxSteps = *maxsteps
 	eng.Verbose = *verbose
 	eng.LogSMT = *logsmt
